@@ -880,35 +880,71 @@ func runC13(w *World, r *Report) {
 		if app == nil {
 			r.bad("buffer-bounds", "insert/append", w.Pos(bi.fn.Pos()), "append anchor", "not found")
 		} else {
-			fe := NewFactEngine(w, []*ssa.Function{bi.fn})
-			_ = fe
-			sizeE := edgesWhere(bi.fn, func(ft fact) bool {
-				if ft.kind != fNeq {
-					return false
+			// the two bounds may be tested in insert itself or by a bool helper that returns the comparison
+			// (`if b.full()`, `case exhausted(m)`): the helper's returned expression is looked at in its place
+			condOf := func(v ssa.Value) (ssa.Value, bool) {
+				neg := false
+				for i := 0; i < 4; i++ {
+					switch x := v.(type) {
+					case *ssa.UnOp:
+						if x.Op == token.NOT {
+							neg = !neg
+							v = x.X
+							continue
+						}
+					case *ssa.Call:
+						if h := samePkgHelper(bi.fn, x); h != nil {
+							if rets := returnsOf(h); len(rets) == 1 && len(rets[0].Results) == 1 {
+								v = rets[0].Results[0]
+								continue
+							}
+						}
+					}
+					break
 				}
-				px, _, okx := lenExpr(ft.x)
-				py, _, oky := lenExpr(ft.y)
-				c1, isC1 := intConst(ft.x)
-				c2, isC2 := intConst(ft.y)
-				return (okx && strings.HasSuffix(px, ".members") && isC2 && c2 > 0) || (oky && strings.HasSuffix(py, ".members") && isC1 && c1 > 0)
-			})
-			r.check(behind(app, sizeE), "buffer-bounds", "insert/size-bound", lineOf(w, app), "append only when len(members) != maxArraySize (constant bound)", "no dominating size test")
-			// repeated > max → reject: append behind the false edge of (m.repeated > const)
-			repE := []Edge{}
+				return v, neg
+			}
+			var sizeE, repE []Edge
 			for _, b := range bi.fn.Blocks {
-				if len(b.Instrs) == 0 {
+				if len(b.Instrs) == 0 || len(b.Succs) != 2 {
 					continue
 				}
 				iff, ok := b.Instrs[len(b.Instrs)-1].(*ssa.If)
 				if !ok {
 					continue
 				}
-				if bo, ok := iff.Cond.(*ssa.BinOp); ok && (bo.Op == token.GTR || bo.Op == token.GEQ) {
+				cv, neg := condOf(iff.Cond)
+				bo, ok := cv.(*ssa.BinOp)
+				if !ok {
+					continue
+				}
+				// len(members) ==/!= positive constant
+				if bo.Op == token.EQL || bo.Op == token.NEQ {
+					px, _, okx := lenExpr(bo.X)
+					py, _, oky := lenExpr(bo.Y)
+					c1, isC1 := intConst(bo.X)
+					c2, isC2 := intConst(bo.Y)
+					if (okx && strings.HasSuffix(px, ".members") && isC2 && c2 > 0) || (oky && strings.HasSuffix(py, ".members") && isC1 && c1 > 0) {
+						notFullOnTrue := (bo.Op == token.NEQ) != neg
+						if notFullOnTrue {
+							sizeE = append(sizeE, Edge{b, 0})
+						} else {
+							sizeE = append(sizeE, Edge{b, 1})
+						}
+					}
+				}
+				// repeated > / >= constant: the append lies on the other side
+				if bo.Op == token.GTR || bo.Op == token.GEQ {
 					if _, isC := intConst(bo.Y); isC && strings.HasSuffix(pathOf(bo.X), ".repeated") {
-						repE = append(repE, Edge{b, 1})
+						if neg {
+							repE = append(repE, Edge{b, 0})
+						} else {
+							repE = append(repE, Edge{b, 1})
+						}
 					}
 				}
 			}
+			r.check(behind(app, sizeE), "buffer-bounds", "insert/size-bound", lineOf(w, app), "append only when len(members) != maxArraySize (constant bound)", "no dominating size test")
 			r.check(behind(app, repE), "buffer-bounds", "insert/retry-bound", lineOf(w, app), "append only when repeated <= maxRepeats", "no dominating retry test")
 			// increment before append: a store to m.repeated of (load + 1) dominates the append and the appended value is loaded afterwards
 			inc := false
@@ -1316,9 +1352,12 @@ func runC14(w *World, r *Report) {
 	r.rule("stream-complete", "StreamDAG: every vertex delivered by a walk is sent unless it is in the local visited set, and once a walk was abandoned (drained) nothing more is sent", 2)
 	if sf := w.fx(r, "accountant", "AccountingBook", "StreamDAG"); sf != nil {
 		for _, cl := range sf.fn.AnonFuncs {
-			for _, wc := range callsTo(cl, dagM("AncestorsWalker")) {
+			// the walk may sit in the goroutine itself or in a helper it calls per tip
+			for _, d := range deepCalls(cl, byName(dagM("AncestorsWalker")), deepDepth) {
+				wc := d.c
+				host := wc.Parent()
 				data := resultAt(wc, 0)
-				recvs, _ := exhaustedEdges(cl, data)
+				recvs, _ := exhaustedEdges(host, data)
 				isSendLocal := func(in ssa.Instruction, _ resolver) bool {
 					switch x := in.(type) {
 					case *ssa.Send:
@@ -1333,22 +1372,28 @@ func runC14(w *World, r *Report) {
 					return false
 				}
 				// a call to a helper every path of which performs the send counts as the send
-				isSend := passesDeep(cl, idRes, isSendLocal, 1)
+				isSend := passesDeep(host, idRes, isSendLocal, 1)
 				for _, rv := range recvs {
-					r.check(everyItemPasses(cl, rv, isSend), "stream-complete", "StreamDAG/every-item-sent", lineOf(w, rv), "each walker item is sent (or skipped as already sent)", "a way back to the receive neither sends the vertex nor is the visited-set skip")
+					r.check(everyItemPasses(host, rv, isSend), "stream-complete", "StreamDAG/every-item-sent", lineOf(w, rv), "each walker item is sent (or skipped as already sent)", "a way back to the receive neither sends the vertex nor is the visited-set skip")
 				}
 				bad := 0
-				instrsOf(cl, func(in ssa.Instruction) {
+				instrsOf(host, func(in ssa.Instruction) {
 					if !isDrainCallOf(in, data) {
 						return
 					}
-					walkFrom(in, nil, nil, func(x ssa.Instruction) bool {
-						if isSend(x) {
+					// from the drain onwards — through the helper's return into the goroutine, pruned by the value
+					// it returns — no vertex is sent any more
+					dw := newDeepWalk(func(x ssa.Instruction, fr *frame) bool {
+						if x == in {
+							return false
+						}
+						if isSendLocal(x, nil) {
 							bad++
 							return true
 						}
 						return false
 					})
+					dw.run(frameFor(cl, d.chain), in.Block(), indexIn(in.Block(), in)+1)
 				})
 				r.check(bad == 0, "stream-complete", "StreamDAG/abandoned-walk-aborts-stream", lineOf(w, wc), "after a walk was abandoned no further vertex is streamed", fmt.Sprintf("%d sends reachable after draining an abandoned walk: the stream would look complete while ancestors are missing", bad))
 			}
